@@ -209,6 +209,11 @@ pub fn cont_grid(fam: Family, s: Scalar) -> Vec<DistSpec> {
                 vec![-5.0, 10.0, 2.0],
                 vec![-1.0, 1.0, 0.9],
                 vec![0.0, b, b / 10.0],
+                // small ranges close to zero (absolute-vs-relative tolerance mistakes)
+                vec![-0.005, 0.005, 0.0],
+                vec![0.0, 0.01, 0.003],
+                vec![0.0, 1e-3, 7e-4],
+                vec![0.0, sm * 1024.0, sm * 512.0],
             ];
             if f32_ {
                 v.push(vec![1000.0, 1004.0, 1001.0]);
@@ -343,8 +348,9 @@ pub fn cont_random(fam: Family, s: Scalar, r: &mut SimRng) -> DistSpec {
             }
         }
         Family::Pert | Family::Triangular => {
-            let min = mloc(r);
-            let range = logu(r, 1e-2, 1e3);
+            let min = if below(r, 3) == 0 { 0.0 } else { mloc(r) };
+            // range >= 2^-10 (f32) / 2^-20 (f64) of the magnitude, per the envelope
+            let range = if min == 0.0 { logu(r, 1e-5, 1e3) } else { logu(r, 1e-2, 1e3) };
             let max = min + range;
             let mode = match below(r, 6) {
                 0 => min,
@@ -434,6 +440,12 @@ pub fn disc_grid(fam: Family, s: Scalar) -> Vec<DistSpec> {
                 (41, 0.25),
                 (30, 1.0 / 3.0),
                 (1u64 << 31, 0.5),
+                // pairs that agree in a derived constant (mode) but not in n
+                (2000, 0.5),
+                (4000, 0.25),
+                (10_000_000_000, 1e-7),
+                (20_000, 0.5),
+                (100_000_000_000, 1e-7),
             ];
             v.into_iter().map(|(n, p)| DistSpec::i(fam, &[n], &[p])).collect()
         }
@@ -618,6 +630,20 @@ pub fn weighted_specs() -> Vec<DistSpec> {
                 ] {
                     v.push(DistSpec::w_float(fam, wty, &ws));
                 }
+                if fam == Family::Tree {
+                    // values reached through push / update histories and decimal weights with
+                    // zeros at inner nodes (their internal sums are inexact)
+                    let mut r = SimRng::new(0x7EE5);
+                    for k in 0..24u64 {
+                        let len = 3 + below(&mut r, 30) as usize;
+                        let ws: Vec<f64> = (0..len)
+                            .map(|_| if below(&mut r, 5) == 0 { 0.0 } else { (below(&mut r, 1000) as f64 + 1.0) / 10.0_f64.powi(below(&mut r, 4) as i32) })
+                            .collect();
+                        let mut sp = DistSpec::w_float(fam, wty, &ws);
+                        sp.n = vec![k % 4];
+                        v.push(sp);
+                    }
+                }
             } else {
                 let max = wty.max_u128();
                 let cap = |x: u128| x.min(u64::MAX as u128) as u64;
@@ -648,6 +674,63 @@ pub fn geom_specs() -> Vec<DistSpec> {
         for s in [Scalar::F32, Scalar::F64] {
             v.push(DistSpec::f(fam, s, &[]));
         }
+    }
+    v
+}
+
+/// Constructor-accepted parameter vectors far OUTSIDE E (MIN_POSITIVE .. MAX in every
+/// coordinate).  Used only by C05's last clause ("there is no parameter value that makes
+/// sampling loop forever"): judged for termination only, nothing else.
+pub fn extreme_specs() -> Vec<DistSpec> {
+    let mut v = Vec::new();
+    for s in [Scalar::F32, Scalar::F64] {
+        let vals: Vec<f64> = if s == Scalar::F32 {
+            vec![f32::MIN_POSITIVE as f64, 1e-30, 1e-19, 1e-3, 1.0, 1e3, 1e19, 3e38, f32::MAX as f64]
+        } else {
+            vec![f64::MIN_POSITIVE, 1e-300, 1e-154, 1e-3, 1.0, 1e3, 1e154, 1e300, f64::MAX]
+        };
+        let one = |f: Family, v: &mut Vec<DistSpec>| {
+            for &a in &vals {
+                v.push(DistSpec::f(f, s, &[a]));
+            }
+        };
+        let two = |f: Family, v: &mut Vec<DistSpec>| {
+            for &a in &vals {
+                for &b in &vals {
+                    v.push(DistSpec::f(f, s, &[a, b]));
+                }
+            }
+        };
+        for f in [Family::Exp, Family::ChiSquared, Family::StudentT, Family::Poisson, Family::Zeta] {
+            one(f, &mut v);
+        }
+        // Zeta needs s > 1
+        for d in [1e-15, 1e-10, 1e-5, 1e-3] {
+            v.push(DistSpec::f(Family::Zeta, s, &[1.0 + d]));
+        }
+        for f in [
+            Family::Gamma, Family::FisherF, Family::Beta, Family::Pareto, Family::Weibull, Family::InverseGaussian, Family::LogNormal, Family::Normal,
+            Family::Cauchy, Family::Gumbel, Family::Zipf,
+        ] {
+            two(f, &mut v);
+        }
+        for &a in &vals {
+            for &b in &[vals[0], 1.0, vals[8]] {
+                v.push(DistSpec::f(Family::Frechet, s, &[0.0, b, a]));
+                v.push(DistSpec::f(Family::SkewNormal, s, &[0.0, b, a]));
+                v.push(DistSpec::f(Family::SkewNormal, s, &[0.0, b, -a]));
+                v.push(DistSpec::f(Family::Nig, s, &[a, 0.0]));
+                v.push(DistSpec::f(Family::Nig, s, &[a, a * 0.999]));
+                v.push(DistSpec::f(Family::Dirichlet, s, &[a, b]));
+                v.push(DistSpec::f(Family::Dirichlet, s, &[a, b, a]));
+            }
+        }
+    }
+    for &p in &[f64::MIN_POSITIVE, 1e-300, 1e-20, 1.0 - 1e-16, 0.5] {
+        for &n in &[1u64, 1 << 20, 1 << 53, 1 << 62, u64::MAX] {
+            v.push(DistSpec::i(Family::Binomial, &[n], &[p]));
+        }
+        v.push(DistSpec::i(Family::Geometric, &[], &[p]));
     }
     v
 }
